@@ -137,9 +137,17 @@ def loadSnapshot (ns : NS) (ids : List Bytes) : Option Snap :=
     hash still exists and whose run id matches, in ZRANGEBYSCORE order (score,
     then member; members are zero-padded so their order is that of kseq ≥ 0).
     The key is kept for the clean-up. -/
+def idxLe (a b : Int × Int) : Bool := a.1 < b.1 ∨ (a.1 = b.1 ∧ a.2 ≤ b.2)
+
+def idxInsert (x : Int × Int) : List (Int × Int) → List (Int × Int)
+  | [] => [x]
+  | y :: ys => if idxLe x y then x :: y :: ys else y :: idxInsert x ys
+
+/-- (score, member) order of ZRANGEBYSCORE -/
+def idxSort (l : List (Int × Int)) : List (Int × Int) := l.foldr idxInsert []
+
 def loadRecords (ns : NS) (ids : List Bytes) (minSeq : Int) : List JRec :=
-  ((ns.index.filter (fun p => p.1 ≥ minSeq)).mergeSort
-      (fun a b => a.1 < b.1 ∨ (a.1 = b.1 ∧ a.2 ≤ b.2))).filterMap (fun p =>
+  (idxSort (ns.index.filter (fun p => p.1 ≥ minSeq))).filterMap (fun p =>
     match ns.journal.find? (fun j => j.kseq = p.2) with
     | none => none
     | some j => if matchRun j.r.runId ids then some j else none)
